@@ -564,3 +564,239 @@ def rf10e(run):
                               'arguments is placed/read at a misaligned slot and exchanged wrongly with native code'
                               % (fn, role, F.src(bad[0])[:90], key, bad[1]), line=bad[0]['l'])
     run.min_instances(rule, 5)
+
+
+# ---------------------------------------------------------------------------------------------
+# RF10f: va_start accounting of the named parameters; RF10g: the interpreter shim's block-argument fetch
+# ---------------------------------------------------------------------------------------------
+
+def _ru8(n):
+    return (n + 7) // 8 * 8
+
+
+def rf10f(run):
+    import rf_callmode as CM
+    rule = 'RF10f'
+    run.rule(rule, 'VA_START lowering (target_machinize): for every class of named parameter (integer, SSE, long double, memory-class '
+                   'block, BLK+1..BLK+4 of 8/12/16 bytes, RBLK) and every state of (gp_offset, fp_offset) the bookkeeping advances '
+                   'gp_offset / fp_offset / the overflow offset exactly as the parameter is taken by the prologue: registers if the '
+                   'whole block fits in the remaining registers of its class(es), otherwise the stack (rounded to 8; long double to 16)')
+    gen = run.tu('gen')
+    f = gen.func('target_machinize')
+    run.functions_analysed.add(('gen', f.name))
+    chain = None
+    for x in f.walk():
+        if x['k'] == 'ForStmt' and 'nargs' in F.src(x['c'][1] if x['c'][1] is not None else x):
+            body = x['c'][3]
+            for st in F.kids(body):
+                if st['k'] == 'IfStmt' and 'var.type' in F.src(st['c'][0]) and any(
+                        y['k'] == 'CompoundAssignOperator' and F.src(F.strip(y['c'][0])) in ('gp_offset', 'fp_offset') for y in F.walk(st)):
+                    chain = st
+    if chain is None:
+        raise F.AnalysisBroken('target_machinize: the named-parameter accounting of VA_START was not found')
+    ev = CM.TextEnv(gen)
+    tys = dict(gen.enum('MIR_type_t'))
+    BLK = tys['MIR_T_BLK']
+    classes = [('MIR_T_I64', tys['MIR_T_I64'], [0]), ('MIR_T_U8', tys['MIR_T_U8'], [0]), ('MIR_T_P', tys['MIR_T_P'], [0]), ('MIR_T_RBLK', tys['MIR_T_RBLK'], [24]),
+               ('MIR_T_F', tys['MIR_T_F'], [0]), ('MIR_T_D', tys['MIR_T_D'], [0]), ('MIR_T_LD', tys['MIR_T_LD'], [0]),
+               ('MIR_T_BLK', BLK, [8, 20, 32]), ('MIR_T_BLK+1', BLK + 1, [8, 12, 16]), ('MIR_T_BLK+2', BLK + 2, [8, 16]),
+               ('MIR_T_BLK+3', BLK + 3, [16]), ('MIR_T_BLK+4', BLK + 4, [16])]
+    n = 0
+    first = None
+    for cn, tv, sizes in classes:
+        for size in sizes:
+            for gp in range(0, 64, 8):
+                for fp in range(48, 200, 16):
+                    for mem in (0, 8):
+                        env = {'var.type': tv, 'var.size': size, 'gp_offset': gp, 'fp_offset': fp, 'mem_offset': mem}
+                        re_ = CM.RetEval(ev)
+                        re_.run(chain, env)
+                        got = (env.get('gp_offset'), env.get('fp_offset'), env.get('mem_offset'))
+                        q = _ru8(size) // 8
+                        egp, efp, em = gp, fp, mem
+                        if cn in ('MIR_T_I64', 'MIR_T_U8', 'MIR_T_P', 'MIR_T_RBLK'):
+                            egp += 8
+                            if egp > 48:
+                                em += 8
+                        elif cn in ('MIR_T_F', 'MIR_T_D'):
+                            efp += 16
+                            if efp > 176:
+                                em += 8
+                        elif cn == 'MIR_T_LD':
+                            em = (em + 15) // 16 * 16 + 16
+                        elif cn == 'MIR_T_BLK':
+                            em += 8 * q
+                        elif cn == 'MIR_T_BLK+1':
+                            if gp + 8 * q <= 48:
+                                egp += 8 * q
+                            else:
+                                em += 8 * q
+                        elif cn == 'MIR_T_BLK+2':
+                            if fp + 16 * q <= 176:
+                                efp += 16 * q
+                            else:
+                                em += 8 * q
+                        else:
+                            if gp + 8 <= 48 and fp + 16 <= 176:
+                                egp, efp = egp + 8, efp + 16
+                            else:
+                                em += 8 * q
+                        exp = (egp, efp, em)
+                        ok = got == exp
+                        n += 1
+                        if not ok and first is None:
+                            first = (cn, size, gp, fp, mem, got, exp)
+                        if n % 37 == 0 or not ok:
+                            run.ob(rule, (cn, size, gp, fp, mem), ok, {'parameter': cn, 'size': size, 'before (gp, fp, overflow)': (gp, fp, mem),
+                                                                      'after': got, 'psABI': exp})
+                        else:
+                            run.ob(rule, (cn, size, gp, fp, mem), ok)
+    if first:
+        cn, size, gp, fp, mem, got, exp = first
+        if None in got:
+            raise F.AnalysisBroken('target_machinize: VA_START accounting not evaluable for %s' % cn)
+        run.violation(rule, f, 'VA_START accounting of a named %s parameter' % cn,
+                      'with gp_offset=%d fp_offset=%d overflow=%d a named %s parameter%s moves the bookkeeping to %s; the prologue takes it so '
+                      'that it should be %s: the first va_arg then reads a named parameter or skips an anonymous one'
+                      % (gp, fp, mem, cn, ' of %d bytes' % size if size else '', got, exp), line=chain['l'])
+    run.min_instances(rule, 1000)
+
+
+def rf10g(run):
+    import rf_callmode as CM
+    rule = 'RF10g'
+    run.rule(rule, 'va_block_arg_builtin (fetch of a block argument from a va_list in the interpreter shim): for every class 1..4, '
+                   'size 8/16 and every (gp_offset, fp_offset): the block is taken from the register save area exactly when all its '
+                   'eightbytes fit in the remaining registers of their classes, gp_offset advances by 8 and fp_offset by 16 per '
+                   'eightbyte; otherwise nothing but the overflow area pointer moves')
+    mir = run.tu('mir')
+    f = mir.func('va_block_arg_builtin')
+    run.functions_analysed.add(('mir', f.name))
+    ev = CM.TextEnv(mir)
+    n = 0
+    first = None
+    body = F.kids(f.body)
+    for ncase in (1, 2, 3, 4):
+        for s in ((8, 16) if ncase in (1, 2) else (16,)):
+            for gp in range(0, 56, 8):
+                for fp in range(48, 192, 16):
+                    env = {'ncase': ncase, 's': s, 'va->gp_offset': gp, 'va->fp_offset': fp, 'res': 0}
+                    w = _Walker(ev)
+                    w.run(f.body, env)
+                    got = (env.get('va->gp_offset'), env.get('va->fp_offset'), w.overflow_moved)
+                    q = s // 8
+                    if ncase == 1:
+                        regs = gp + 8 * q <= 48
+                        exp = (gp + 8 * q, fp, False) if regs else (gp, fp, True)
+                    elif ncase == 2:
+                        regs = fp + 16 * q <= 176
+                        exp = (gp, fp + 16 * q, False) if regs else (gp, fp, True)
+                    else:
+                        regs = gp + 8 <= 48 and fp + 16 <= 176
+                        exp = (gp + 8, fp + 16, False) if regs else (gp, fp, True)
+                    ok = got == exp
+                    n += 1
+                    if not ok or n % 29 == 0:
+                        run.ob(rule, (ncase, s, gp, fp), ok, {'class': ncase, 'size': s, 'before (gp, fp)': (gp, fp), 'after (gp, fp, from stack)': got, 'psABI': exp})
+                    else:
+                        run.ob(rule, (ncase, s, gp, fp), ok)
+                    if not ok and first is None:
+                        first = (ncase, s, gp, fp, got, exp)
+    if first:
+        ncase, s, gp, fp, got, exp = first
+        if None in got[:2]:
+            raise F.AnalysisBroken('va_block_arg_builtin: not evaluable for class %d' % ncase)
+        run.violation(rule, f, 'block argument of class %d' % ncase,
+                      'for a %d-byte block of class BLK+%d with gp_offset=%d fp_offset=%d va_block_arg_builtin ends with (gp_offset, fp_offset, '
+                      'taken from the stack) = %s, the psABI layout gives %s: the parameters after the block are read from the wrong slots'
+                      % (s, ncase, gp, fp, got, exp), line=f.line)
+    run.min_instances(rule, 200)
+
+
+class _Walker:
+    """statement walker for va_block_arg_builtin: switch on a known value, if/else, compound assignments on env keys; notes
+    whether the overflow area pointer is advanced"""
+
+    def __init__(self, ev):
+        self.ev = ev
+        self.overflow_moved = False
+
+    def run(self, s, env):
+        if s is None:
+            return 'fall'
+        k = s['k']
+        if k == 'CompoundStmt':
+            for x in F.kids(s):
+                r = self.run(x, env)
+                if r != 'fall':
+                    return r
+            return 'fall'
+        if k == 'SwitchStmt':
+            v = self.ev.eval(s['c'][0], env, frozenset())
+            if v is None:
+                raise F.AnalysisBroken('switch value not evaluable')
+            started, dflt = False, None
+            ks = F.kids(s['c'][1])
+            seq = []
+            for j, st in enumerate(ks):
+                x = st
+                labels = []
+                while x is not None and x['k'] in ('CaseStmt', 'DefaultStmt'):
+                    labels.append(x)
+                    x = F.kids(x)[0] if F.kids(x) else None
+                if not started and any(lb['k'] == 'CaseStmt' and lb.get('lo') is not None and lb['lo'] <= v <= lb.get('hi', lb['lo']) for lb in labels):
+                    started = True
+                if not started and any(lb['k'] == 'DefaultStmt' for lb in labels) and dflt is None:
+                    dflt = j
+                if started and x is not None:
+                    seq.append(x)
+            if not started and dflt is not None:
+                for st in ks[dflt:]:
+                    x = st
+                    while x is not None and x['k'] in ('CaseStmt', 'DefaultStmt'):
+                        x = F.kids(x)[0] if F.kids(x) else None
+                    if x is not None:
+                        seq.append(x)
+            for x in seq:
+                r = self.run(x, env)
+                if r == 'break':
+                    return 'fall'
+                if r != 'fall':
+                    return r
+            return 'fall'
+        if k == 'IfStmt':
+            c = self.ev.eval(s['c'][0], env, frozenset())
+            if c is None:
+                raise F.AnalysisBroken('condition %s not evaluable' % F.src(s['c'][0])[:60])
+            return self.run(s['c'][1] if c else s['c'][2], env) if (c or s['c'][2] is not None) else 'fall'
+        if k == 'BreakStmt':
+            return 'break'
+        if k == 'ReturnStmt':
+            return 'return'
+        if k == 'DeclStmt':
+            for d in s['decls']:
+                if d.get('init') is not None:
+                    v = self.ev.eval(d['init'], env, frozenset())
+                    if v is not None:
+                        env[d['n']] = v
+            return 'fall'
+        if k == 'CompoundAssignOperator' and s['op'] in ('+=', '-='):
+            key = F.src(F.strip(s['c'][0]))
+            if key.endswith('overflow_arg_area'):
+                self.overflow_moved = True
+                return 'fall'
+            v = self.ev.eval(s['c'][1], env, frozenset())
+            if isinstance(env.get(key), int) and v is not None:
+                env[key] = env[key] + (v if s['op'] == '+=' else -v)
+            else:
+                env.pop(key, None)
+            return 'fall'
+        if k == 'BinaryOperator' and s['op'] == '=':
+            key = F.src(F.strip(s['c'][0]))
+            v = self.ev.eval(s['c'][1], env, frozenset())
+            if v is None:
+                env.pop(key, None) if not key.startswith('va->') else None
+            else:
+                env[key] = v
+            return 'fall'
+        return 'fall'
